@@ -20,6 +20,10 @@ THEOREM_MODULES = ["Yarel.Props.C09", "Yarel.Props.SpecFibers"]
 REQUIRED_THEOREMS = ["save_then_load_restores_registers", "save_touches_only_own_fiber", "yield_hands_value_to_caller", "finish_hands_value_to_caller",
                      "call_finished_rejected", "call_called_rejected", "yield_at_root_rejected", "chain_ok", "reject_untouched", "handover_first_call", "handover_resume_repaired", "handover_yield",
                      "handover_finish", "isolation_load", "isolation_unload", "active_fiber_dual"]
+# the state the models abstract is all the state there is: the fields of the run-time structures, regenerated on every run, are the ones
+# the models were written against (Props/StateInventory)
+THEOREM_MODULES.append("Yarel.Props.StateInventory")
+REQUIRED_THEOREMS += ['state_of_interpreter_and_fiber']
 LEVEL = "proof"
 ASSUMPTIONS = [
     "fiber mechanism model Yarel/Model/Fibers.lean transcribes load_fiber/unload_fiber/return_impl (tie: event replay)",
